@@ -165,6 +165,40 @@ def check(ctx, rep):
     t_ = norm(gm)
     rep.ob('access.block-uses-block-reader', 'BSAVE reads video memory with the block routine and the rest byte by byte',
            'block += self._get_video_memory_block(addr, min(length, video_len))' in t_ and 'block.append(max(0, self._get_memory(a)))' in t_, '', ctx.where(gm))
+    # interleaved modes: the address decoder and the block walker use the same stride between the rows of a bank -- the mode's
+    # interleave factor (2 for CGA, 4 for Hercules / Olivetti / Tandy SCREEN 5), never a literal
+    from ..algebra import lin as _lin
+    FB_ = 'pcbasic/basic/display/framebuffer.py'
+    gc = ctx.fn(FB_ + ':CGAMemoryMapper._get_coords')
+    ys = [a for a in own_nodes(gc) if isinstance(a, ast.Assign) and norm(a.targets[0]) == 'y']
+    form = _lin(ys[0].value) if len(ys) == 1 else None
+    rep.ob('interleave.same-stride', 'CGAMemoryMapper._get_coords: scan line = bank + interleave factor * row within the bank',
+           form == {'bank': 1, 'row*self._interleave_times': 1}, repr(form), ctx.where(gc))
+    wm = ctx.fn(FB_ + ':GraphicsMemoryMapper._walk_memory')
+    steps = [norm(a.value) for a in own_nodes(wm) if isinstance(a, ast.AugAssign) and norm(a.target) == 'y' and isinstance(a.op, ast.Add)]
+    rep.ob('interleave.same-stride', '_walk_memory steps to the next row of a bank by the same interleave factor', steps == ['self._interleave_times'], repr(steps), ctx.where(wm))
+    # BLOAD takes off exactly one end-of-file marker: payload bytes that happen to be 0x1A are data
+    bl = ctx.fn(MA + ':Memory.bload_')
+    flb = ctx.flow(bl)
+    cuts = [a for a in own_nodes(bl) if isinstance(a, ast.Assign) and norm(a.targets[0]) == 'buf' and norm(a.value) == 'buf[:-1]']
+    strips = [c for c in own_nodes(bl) if isinstance(c, ast.Call) and isinstance(c.func, ast.Attribute) and c.func.attr in ('rstrip', 'strip', 'lstrip') and norm(c.func.value) == 'buf']
+    rep.ob('bload.one-marker-only', 'bload_ drops one trailing 0x1A, and only if the last byte is one',
+           len(cuts) == 1 and not strips and any(f.pol and f.text in ('buf[-1] == 26', 'buf and buf[-1] == 26') for f in flb.facts(cuts[0])),
+           'every trailing 0x1A is removed: a memory image that ends in byte 26 is loaded short', ctx.where(bl))
+    # the part of a block that lies in video memory has a length >= 0 (the window ends; beyond it nothing is video memory):
+    # reader and writer compute it the same way, clamped at 0
+    lens = {}
+    for name in ('_get_memory_block', '_set_memory_block'):
+        fn = ctx.fn(MA + ':Memory.' + name)
+        a = [x for x in own_nodes(fn) if isinstance(x, ast.Assign) and norm(x.targets[0]) == 'video_len']
+        lens[name] = [norm(x.value) for x in a]
+        for x in a:
+            v = x.value
+            ok = isinstance(v, ast.Call) and norm(v.func) == 'max' and len(v.args) == 2 and '0' in [norm(q) for q in v.args]
+            rep.ob('access.video-part-length-not-negative', 'Memory.%s: %s' % (name, short(x, 70)), ok,
+                   'for an address beyond the video window the length is negative: BSAVE ends in ValueError, BLOAD drops the tail of the block', ctx.where(x))
+    rep.ob('access.video-part-length-not-negative', 'reader and writer compute the video part of a block identically',
+           lens['_get_memory_block'] == lens['_set_memory_block'] and len(lens['_get_memory_block']) == 1, repr(lens), MA)
 
 
 def variants(ctx):
@@ -174,6 +208,13 @@ def variants(ctx):
         return lambda tree: f(mu.find_def(tree, f_name))
 
     return [
+        mu.Variant('cga-decoder-assumes-two-way-interleave', 'break', 'pcbasic/basic/display/framebuffer.py',
+                   lambda tree: mu.replace_expr(mu.find_def(tree, 'CGAMemoryMapper._get_coords'), mu.text_is('self._interleave_times * row'), '2 * row'), expect='interleave.same-stride'),
+        mu.Variant('bload-strips-every-trailing-marker', 'break', MA,
+                   lambda tree: mu.replace_stmt(mu.find_def(tree, 'Memory.bload_'), lambda st: isinstance(st, ast.If) and 'buf[-1] == 26' in norm(st.test), "buf = buf.rstrip(b'\\x1a')"), expect='bload.one-marker-only'),
+        mu.Variant('video-part-length-unclamped', 'break', MA,
+                   lambda tree: mu.replace_expr(mu.find_def(tree, 'Memory._get_memory_block'), mu.text_is('max(0, 131072 - (addr - self.video_segment * 16))'), '131072 - (addr - self.video_segment * 16)'),
+                   expect='access.video-part-length-not-negative'),
         Va('text-block-stops-at-gap', 'break', FB,
            lambda tree: mu.replace_stmt(mu.find_def(tree, 'TextMemoryMapper.set_memory'), lambda st: isinstance(st, ast.Pass), 'break'), expect='text.block-equals'),
         Va('page-step-keeps-start-row', 'break', FB,
